@@ -34,12 +34,12 @@ CHECKS = {
   "DESIGN.md section 5 C07"),
  "C08": ("fault_enumeration",
   "runtime monitoring: session-lifecycle automaton over the backend event log under cut-point enumeration and server-initiated closes with buffered suffixes; goroutine-table leak check",
-  "Every octet offset of 30 conversations (incl. AUTH exchanges) and of a STARTTLS conversation (plaintext part and inner TLS part) is used as a disconnect point with three failure kinds; five server-initiated close reasons (QUIT, error threshold, over-long line, idle timeout via a virtual deadline, backend panic) are combined with every command suffix of length <=2 already buffered behind the closing command, with ReadTimeout 0 and set, SMTP and LMTP, at default GOMAXPROCS and 1. A session-lifecycle automaton over the recorded callbacks checks exactly-one Logout per session, no callback after Logout, nothing executed after the closing reply; at the end of the run no goroutine with a go-smtp frame may remain.",
+  "Every octet offset of 30 conversations (incl. AUTH exchanges) and of a STARTTLS conversation (plaintext part and inner TLS part) is used as a disconnect point with three failure kinds; server-initiated close reasons (QUIT, error threshold with several kinds of invalid line, over-long line, idle timeout via a virtual deadline also inside AUTH and DATA, backend panic inside Mail / NewSession / Rcpt / Data / Reset) are combined with every command suffix of length <=2 already buffered behind the closing command, with ReadTimeout 0 and set, SMTP and LMTP, at default GOMAXPROCS and 1. A session-lifecycle automaton over the recorded callbacks checks exactly-one Logout per session, no callback after Logout, nothing executed after the closing reply or after a 421, no more Mail/Rcpt/NewSession callbacks than completely received (CRLF-terminated) commands of that kind at every cut; the connection's own Close is overlapped with Server.Close / Conn.Close while parked in each callback kind; at the end of the run no goroutine with a go-smtp frame may remain.",
   "Known finding C08:data-begins-after-logout (zero-octet transfer aborted before the delivery goroutine entered Data) is matched narrowly; leak check is global per run, not per case.",
   "DESIGN.md section 5 C08"),
  "C03": ("exploration",
   "runtime monitoring: transaction-monitor automaton driven by observed replies and recorded backend callbacks over exhaustive short and seeded long command histories",
-  "All histories of bounded length over 37 abstract commands appended to nine prefix states in four configurations, plus seeded longer histories, are executed lock-step against the real server; an independent transaction automaton (greeted / sender accepted / accepted recipients / chunked transfer open) judges every callback's precondition, the 5xx+no-callback rule for out-of-order commands, Reset after every transaction end, Logout at STARTTLS and what NewSession can observe. Exhaustive in the stated bound, sampled beyond.",
+  "All histories of bounded length over 43 abstract commands (incl. over-limit payloads and BODY=BINARYMIME senders accepted / refused) appended to ten prefix states in six configurations, plus seeded longer histories, are executed lock-step against the real server; an independent transaction automaton (greeted / sender accepted / accepted recipients / chunked transfer open) judges every callback's precondition, the 5xx+no-callback rule for out-of-order commands, Reset after every transaction end, Logout at STARTTLS and what NewSession can observe. Exhaustive in the stated bound, sampled beyond.",
   "A second MAIL accepted inside an open transaction makes the rest of that transaction unjudged; Reset required only when a sender had been accepted.",
   "DESIGN.md section 5 C03"),
  "C04": ("exploration",
@@ -49,12 +49,12 @@ CHECKS = {
   "DESIGN.md section 5 C04"),
  "C19": ("exploration",
   "runtime monitoring: ErrorLog tap for recovered panics, transport consumption counter, reply parser and backend log under boundary-length lines, endless lines, exhaustive short byte strings and seeded token soups",
-  "Lines of total length limit-2..limit+3 and 3*limit for three limits are placed at seven positions of a conversation (first line, later, MAIL line, inside an AUTH exchange, after DATA, after a non-LAST chunk, after a refused BDAT), in one and in two segments; endless LF-free input is fed in 512-octet segments while the transport counts what the server consumed before closing; every string of bounded length over nine hostile octets and seeded token soups are sent as command lines in five session states; error floods of 3..6 invalid commands in three mixes. A recovered panic in Server.ErrorLog, a crash of the child process, a wrong 500/close decision, unbounded consumption or a connection surviving the fourth invalid command is a violation.",
+  "Lines of total length limit-2..limit+3 and 3*limit for three limits are placed at nine positions of a conversation (first line, later, MAIL line, inside an AUTH exchange, after DATA, after a non-LAST chunk, after a refused BDAT, after a chunk the backend failed, after an over-limit chunk), in one and in two segments, with Server.Debug unset and set; endless LF-free input is fed in 512-octet segments while the transport counts what the server consumed before closing; every string of bounded length over nine hostile octets and seeded token soups (a third of them MAIL/RCPT lines with a valid path followed by a soup of parameter fragments, every extension enabled) are sent as command lines in five session states; error floods of 3..6 invalid commands in three mixes. A recovered panic in Server.ErrorLog, a crash of the child process, a wrong 500/close decision, unbounded consumption or a connection surviving the fourth invalid command is a violation.",
   "Lines of exactly limit+1 octets are not judged; BDAT payload is sent in its own segment here because payload read ahead with its command line is the C05 known finding.",
   "DESIGN.md section 5 C19"),
  "C09": ("exploration",
   "runtime monitoring: recording scripted SASL mechanisms on both sides, transcript equality with the wire, state checks around the exchange",
-  "Raw exchanges (0..3 challenges of arbitrary octets, every single-step deviation: empty line, bad base64, '*', 1100-octet response; initial response none / '=' / base64 / bad) are driven against the real server in every combination of TLS state, AllowInsecureAuth and backend kind, with surrounding histories (before greeting, after failure, after success, after RSET / re-EHLO, plaintext success followed by STARTTLS); the recording mechanism must see exactly the decoded octets, or nothing at all where AUTH must be unreachable. The real Client.Auth is run against the real server with recording mechanisms on both ends and against a scripted fake server (non-base64 334, 5xx at step k, early 235).",
+  "Raw exchanges (0..3 challenges of arbitrary octets, every single-step deviation: empty line, bad base64, '*', 1100-octet response; initial response none / '=' / base64 / bad) are driven against the real server in every combination of TLS state, AllowInsecureAuth and backend kind, with surrounding histories (before greeting, after failure, after success, after RSET / re-EHLO, plaintext success followed by STARTTLS, STARTTLS accepted but the handshake failed so that the connection is still plaintext); the recording mechanism must see exactly the decoded octets, or nothing at all where AUTH must be unreachable. The real Client.Auth is run against the real server with recording mechanisms on both ends and against a scripted fake server (non-base64 334, 5xx at step k, early 235).",
   "'=' as a non-initial response and nil responses from a sasl.Client are not judged.",
   "DESIGN.md section 5 C09"),
  "C10": ("exploration",
@@ -64,22 +64,22 @@ CHECKS = {
   "DESIGN.md section 5 C10"),
  "C12": ("exploration",
   "runtime monitoring over the exhaustively enumerated configuration space: capability set vs reference function, one behavioural probe per extension",
-  "All 3072 configurations are instantiated as real servers; the EHLO/LHLO capability set (order-free, exact arguments) is compared with a reference function written from the statement, HELO must list nothing, every extension parameter is probed (250 iff enabled, 504 iff disabled), STARTTLS/AUTH/SIZE/RCPTMAX/BDAT are exercised, and after a successful STARTTLS the capability set is checked again for the TLS state. exhaustive=true for the configuration space; one probe input per extension.",
+  "All 4096 configurations (5 extension flags x size limit x recipient limit x four TLS states x AllowInsecureAuth x backend kind x SMTP/LMTP) are instantiated as real servers; the EHLO/LHLO capability set (order-free, exact arguments) is compared with a reference function written from the statement, HELO must list nothing, every extension parameter is probed (250 iff enabled, 504 iff disabled), STARTTLS/AUTH/SIZE/RCPTMAX/BDAT are exercised, BINARYMIME is honoured and does not leak into the next transaction, and the capability set is checked again after a successful AUTH, after a successful STARTTLS and after a STARTTLS whose handshake failed, for the state the connection is then in. exhaustive=true for the configuration space; one probe input per extension.",
   "AUTH= on servers not advertising AUTH and REQUIRETLS on plaintext connections of servers that enable it are not judged.",
   "DESIGN.md section 5 C12"),
  "C11": ("exploration",
   "runtime monitoring: recorded Mail/Rcpt arguments vs values known by construction (valid lines) and vs an independent conservative reference classifier (definitely-invalid lines)",
-  "Grammar-derived valid MAIL/RCPT lines carry their expected mailbox and option values by construction and are compared field by field with what the recording backend received (unset fields must be zero); every single-point mutation of seed lines, all short strings over ten syntactically significant characters used as the path, and a table of malformed / disabled-extension parameters are classified by ref.ClassifyLine, and the definitely-invalid ones must be answered 5xx without any backend call. All 32 extension-flag settings are used.",
+  "Grammar-derived valid MAIL/RCPT lines carry their expected mailbox and option values by construction and are compared field by field with what the recording backend received (unset fields must be zero); every single-point mutation of seed lines, all short strings over ten syntactically significant characters used as the path, and a table of malformed / disabled-extension parameters (truncated xtext hexchars at value ends included) are classified by ref.ClassifyLine, and the definitely-invalid ones must be answered 5xx without any backend call - also when the server closes the connection after its answer; a recovered panic is a violation; refused 'poison' commands precede judged lines so that leftovers of a refused command show. All 32 extension-flag settings are used.",
   "The verdict is relative to the harness's conservative reading of RFC 5321 4.1.2 and the extension RFCs; lenient forms are deliberately unjudged.",
   "DESIGN.md section 5 C11"),
  "C13": ("exploration",
   "runtime monitoring: unique-token statuses and a per-address FIFO reference attribution over exhaustively enumerated recipient lists and status-call sequences; state-based deadlock detection",
-  "For all 30 recipient lists of length <=4 over two addresses, every sequence of SetStatus calls within the multiplicities, three timings, both return values, five panic/misuse kinds, three transfer forms, both backend kinds, refused recipients in between and a second transaction with a different recipient list on the same connection, the real LMTP server's final replies are compared with the reference attribution (count, order, recipient named, code and unique token). A deadlock is reported from state (backend returned, client idle, server neither reading nor writing, corroborated by the goroutine table), never from elapsed time alone.",
+  "For all 30 recipient lists of length <=4 over two addresses, every sequence of SetStatus calls within the multiplicities, three timings, both return values, five panic/misuse kinds, three transfer forms, both backend kinds, refused recipients and refused BDAT commands in between, a second transaction with a different recipient list on the same connection, and (every third case) two addresses that differ only in the letter case of the domain, the real LMTP server's final replies are compared with the reference attribution (count, order, recipient named, code, unique token, verbatim status text containing '%'); the message octets and the absence of recovered panics are checked too. A deadlock is reported from state (backend returned, client idle, server neither reading nor writing, corroborated by the goroutine table), never from elapsed time alone.",
   "Known finding C13:bdat-last-early-failure-single-reply; statuses set after LMTPData returned violate the backend contract and their effect is not judged.",
   "DESIGN.md section 5 C13"),
  "C16": ("exploration",
   "runtime monitoring: real client against real server; backend octets vs DotWriter reference, envelope equality, Close verdicts, wire tap around the second Close",
-  "Bodies exhaustive over the tokens {'.', LF, CRLF, x} up to a bound plus seeded 8-bit bodies are written through Client.Data/LMTPData in several partitions of Write calls; the recording backend's octets are compared with the reference normalisation, the envelope with what was given, Close with the server's scripted verdict (accept / reject with token), and a second Close must fail locally without a single octet appearing on the client->server tap.",
+  "Bodies exhaustive over the tokens {'.', LF, CRLF, x} up to a bound plus seeded 8-bit bodies are written through Client.Data/LMTPData in several partitions of Write calls; the recording backend's octets are compared with the reference normalisation, the envelope with what was given, Close with the server's scripted verdict (accept / reject with token), and a second Close must fail locally without a single octet appearing on the client->server tap. Virtual time: in a fifth of the cases every read deadline armed on the server's end is fired in the middle of the body (WriteTimeout set, ReadTimeout unset), in a third every read/write deadline still armed on the client's end is; a second message with other recipients follows in a quarter.",
   "Empty body not judged; CR occurs only inside CRLF as the statement requires.",
   "DESIGN.md section 5 C16"),
  "C17": ("exploration",
@@ -104,7 +104,7 @@ CHECKS = {
   "DESIGN.md section 5 C15"),
  "C20": ("exploration",
   "runtime monitoring: Go race detector over enumerated event orders and close/callback overlaps; porcupine linearizability check of concurrent Close/Shutdown histories; termination and goroutine-table checks; scripted Accept errors",
-  "Under the race-detector build (GOMAXPROCS default and 1; also 4 and a non-race pass in thorough): all orders of up to three (thorough: four) harness events from {delivery completes, RSET, next transaction, QUIT, disconnect, Server.Close, Server.Shutdown} against a parked BDAT delivery, a parked LMTP DATA delivery and a parked LMTP BDAT delivery; Server.Close overlapping each callback kind parked on a gate, and called directly from callbacks; groups of 2..8 barrier-released Close/Shutdown callers on one or two listeners (one of them failing to close) whose recorded call/return history is checked by porcupine against the sequential model 'first caller gets the listener result, later ones ErrServerClosed'; all sequences of up to five temporary/permanent Accept errors; replays of C03/C05/C13 cases for race coverage. Race reports are parsed, de-duplicated by racing statement pair and are violations; Serve/handlers/deliveries must terminate and no library goroutine may remain at the end.",
+  "Under the race-detector build (GOMAXPROCS default and 1; also 4 and a non-race pass in thorough): all orders of up to three (thorough: four) harness events from {delivery completes, RSET, next transaction, QUIT, disconnect, Server.Close, Server.Shutdown} against a parked BDAT delivery, a parked LMTP DATA delivery, a parked LMTP BDAT delivery and a parked BDAT delivery of an LMTP server over a plain Session; connections idle, in their implicit-TLS handshake or stalled inside a STARTTLS handshake when Close / Shutdown fires; Server.Close overlapping each callback kind parked on a gate, and called directly from callbacks; groups of 2..8 barrier-released Close/Shutdown callers on one or two listeners (one of them failing to close) whose recorded call/return history is checked by porcupine against the sequential model 'first caller gets the listener result, later ones ErrServerClosed'; all sequences of up to five temporary/permanent Accept errors; replays of C03/C05/C13 cases for race coverage. Race reports are parsed, de-duplicated by racing statement pair and are violations; Serve/handlers/deliveries must terminate and no library goroutine may remain at the end.",
   "The race detector sees only executed accesses; interleavings are diversified by enumerated orders, gates, yields and GOMAXPROCS, not exhausted.",
   "DESIGN.md section 5 C20"),
 }
